@@ -173,32 +173,67 @@ def conv_args(types: list, args: list, ctx: V, k: int) -> list:
 
 
 # ---- expression evaluation -----------------------------------------------------------
+# one opaque function per expression class: a proof about one class reveals only that class
 def eval_expr(e: V, ctx: V) -> V:
     if isinstance(e, FilterExpression):
-        return truth_of(eval_expr(e.expression, ctx))
+        return eval_filter(e, ctx)
     if isinstance(e, FilterExpressionLiteral):
         return e.value
     if isinstance(e, PrefixExpression):
-        return not truth_of(eval_expr(e.right, ctx))
+        return eval_prefix(e, ctx)
     if isinstance(e, LogicalExpression):
-        if e.operator == "&&":
-            return truth_of(eval_expr(e.left, ctx)) and truth_of(eval_expr(e.right, ctx))
-        return truth_of(eval_expr(e.left, ctx)) or truth_of(eval_expr(e.right, ctx))
+        return eval_logical(e, ctx)
     if isinstance(e, ComparisonExpression):
-        return rfc_compare(comparand(eval_expr(e.left, ctx)), str_of(e.operator), comparand(eval_expr(e.right, ctx)))
+        return eval_comparison(e, ctx)
     if isinstance(e, RelativeFilterQuery):
-        # '@' is the child being tested, whatever its kind; '$' inside stays the query argument
-        return NodeList(apply_segments(seq(e.query.segments), [Node(ctx.current, mk_tuple([]), ctx.root)],
-                                       len(e.query.segments)))
+        return eval_relative(e, ctx)
     if isinstance(e, RootFilterQuery):
-        return NodeList(apply_segments(seq(e.query.segments), [Node(ctx.root, mk_tuple([]), ctx.root)],
-                                       len(e.query.segments)))
+        return eval_root(e, ctx)
     if isinstance(e, FunctionExtension):
-        if has_key(ctx.env.function_extensions, str_of(e.name)):
-            return call_func(get(ctx.env.function_extensions, str_of(e.name)),
-                             conv_args(seq(get(ctx.env.function_extensions, str_of(e.name)).arg_types),
-                                       seq(e.args), ctx, len(e.args)))
-        return NOTHING
+        return eval_call(e, ctx)
+    return NOTHING
+
+
+def eval_filter(e: V, ctx: V) -> V:
+    """opaque: a filter expression is the truth of its operand"""
+    return truth_of(eval_expr(e.expression, ctx))
+
+
+def eval_prefix(e: V, ctx: V) -> V:
+    """opaque: logical not"""
+    return not truth_of(eval_expr(e.right, ctx))
+
+
+def eval_logical(e: V, ctx: V) -> V:
+    """opaque: && and || are classical on the truth of both sides"""
+    if e.operator == "&&":
+        return truth_of(eval_expr(e.left, ctx)) and truth_of(eval_expr(e.right, ctx))
+    return truth_of(eval_expr(e.left, ctx)) or truth_of(eval_expr(e.right, ctx))
+
+
+def eval_comparison(e: V, ctx: V) -> V:
+    """opaque: comparison of two comparands per Table 11"""
+    return rfc_compare(comparand(eval_expr(e.left, ctx)), str_of(e.operator), comparand(eval_expr(e.right, ctx)))
+
+
+def eval_relative(e: V, ctx: V) -> V:
+    """opaque: '@' is the child being tested, whatever its kind; '$' inside stays the query argument"""
+    return NodeList(apply_segments(seq(e.query.segments), [Node(ctx.current, mk_tuple([]), ctx.root)],
+                                   len(e.query.segments)))
+
+
+def eval_root(e: V, ctx: V) -> V:
+    """opaque: '$' is the root of the query argument at any nesting depth"""
+    return NodeList(apply_segments(seq(e.query.segments), [Node(ctx.root, mk_tuple([]), ctx.root)],
+                                   len(e.query.segments)))
+
+
+def eval_call(e: V, ctx: V) -> V:
+    """opaque: a function call: arguments converted to the declared parameter types"""
+    if has_key(ctx.env.function_extensions, str_of(e.name)):
+        return call_func(get(ctx.env.function_extensions, str_of(e.name)),
+                         conv_args(seq(get(ctx.env.function_extensions, str_of(e.name)).arg_types),
+                                   seq(e.args), ctx, len(e.args)))
     return NOTHING
 
 
@@ -265,34 +300,72 @@ def arg_ok(typ: V, e: V, env: V) -> bool:
 
 
 def wf_expr(e: V, env: V) -> bool:
-    """opaque: e is a well-formed, well-typed expression tree for environment env"""
+    """e is a well-formed, well-typed expression tree for environment env (one opaque predicate per class)"""
     if isinstance(e, FilterExpression):
-        return isinstance(e.expression, Expression) and wf_expr(e.expression, env) and logical_typed(e.expression, env)
+        return wf_filter_e(e, env)
     if isinstance(e, FilterExpressionLiteral):
         return is_none(e.value) or is_bool(e.value) or is_int(e.value) or is_float(e.value) or is_str(e.value)
     if isinstance(e, PrefixExpression):
-        return (is_str(e.operator) and str_of(e.operator) == "!" and isinstance(e.right, Expression)
-                and wf_expr(e.right, env) and logical_typed(e.right, env))
+        return wf_prefix_e(e, env)
     if isinstance(e, LogicalExpression):
-        return (is_str(e.operator) and (str_of(e.operator) == "&&" or str_of(e.operator) == "||")
-                and isinstance(e.left, Expression) and isinstance(e.right, Expression)
-                and wf_expr(e.left, env) and wf_expr(e.right, env)
-                and logical_typed(e.left, env) and logical_typed(e.right, env))
+        return wf_logical_e(e, env)
     if isinstance(e, ComparisonExpression):
-        return (is_str(e.operator) and isinstance(e.left, Expression) and isinstance(e.right, Expression)
-                and wf_expr(e.left, env) and wf_expr(e.right, env)
-                and value_typed(e.left, env) and value_typed(e.right, env))
+        return wf_comparison_e(e, env)
     if isinstance(e, FilterQuery):
         return wf_query(e.query, env)
     if isinstance(e, FunctionExtension):
-        return (is_str(e.name) and is_arr(e.args)
-                and all(isinstance(a, Expression) and wf_expr(a, env) for a in seq(e.args))
-                and implies(has_key(env.function_extensions, str_of(e.name)),
-                            len(e.args) == len(get(env.function_extensions, str_of(e.name)).arg_types)
-                            and all(arg_ok(seq(get(env.function_extensions, str_of(e.name)).arg_types)[j], seq(e.args)[j], env)
-                                    for j in range(len(e.args)))))
+        return wf_call_e(e, env)
     return False
+
+
+def wf_filter_e(e: V, env: V) -> bool:
+    """opaque: operand is a test"""
+    return isinstance(e.expression, Expression) and wf_expr(e.expression, env) and logical_typed(e.expression, env)
+
+
+def wf_prefix_e(e: V, env: V) -> bool:
+    """opaque: '!' applied to a test"""
+    return (is_str(e.operator) and str_of(e.operator) == "!" and isinstance(e.right, Expression)
+            and wf_expr(e.right, env) and logical_typed(e.right, env))
+
+
+def wf_logical_e(e: V, env: V) -> bool:
+    """opaque: && / || over tests"""
+    return (is_str(e.operator) and (str_of(e.operator) == "&&" or str_of(e.operator) == "||")
+            and isinstance(e.left, Expression) and isinstance(e.right, Expression)
+            and wf_expr(e.left, env) and wf_expr(e.right, env)
+            and logical_typed(e.left, env) and logical_typed(e.right, env))
+
+
+def wf_comparison_e(e: V, env: V) -> bool:
+    """opaque: both comparands are ValueType"""
+    return (is_str(e.operator) and isinstance(e.left, Expression) and isinstance(e.right, Expression)
+            and wf_expr(e.left, env) and wf_expr(e.right, env)
+            and value_typed(e.left, env) and value_typed(e.right, env))
+
+
+def wf_call_e(e: V, env: V) -> bool:
+    """opaque: arguments are expressions; for a registered function they match its signature"""
+    return (is_str(e.name) and is_arr(e.args)
+            and all(isinstance(a, Expression) and wf_expr(a, env) for a in seq(e.args))
+            and implies(has_key(env.function_extensions, str_of(e.name)),
+                        len(e.args) == len(get(env.function_extensions, str_of(e.name)).arg_types)
+                        and all(arg_ok(seq(get(env.function_extensions, str_of(e.name)).arg_types)[j], seq(e.args)[j], env)
+                                for j in range(len(e.args)))))
 
 
 def wf_ctx(ctx: V) -> bool:
     return isinstance(ctx, FilterContext) and wf_env(ctx.env) and is_json(ctx.current) and is_json(ctx.root)
+
+
+def is_cmp_arg(v: V) -> bool:
+    """what reaches a comparison after singleton unwrapping: a value, Nothing, or an EMPTY nodelist
+    (a singular query that selected nothing)"""
+    return is_operand(v) or (is_nodelist(v) and len(v) == 0)
+
+
+def conv_vals(types: list, vals: list, k: int) -> list:
+    """2.4.2 conversions applied to already evaluated arguments"""
+    if k <= 0:
+        return []
+    return conv_vals(types, vals, k - 1) + [conv_arg(types[k - 1], vals[k - 1])]
